@@ -282,6 +282,7 @@ PATHBUF2 = 0xC000
 DATA = 0x20000        # data buffers
 STATBUF = 0x4000
 DIRBUF = 0x60000
+BIGIOV = 0x100000     # iovec arrays of more than 1000 entries (up to 64 KiB)
 CANARY = 0xCD
 
 
@@ -297,5 +298,7 @@ def put_iovs(agent, bufs, base=DATA, gap=16):
         if not isinstance(b, int):
             agent.poke(ptr, b)
         ptr += ln + gap
-    agent.poke(IOV, arr)
-    return IOV, len(bufs), out
+    # arrays of more than 1000 entries do not fit between IOV and RES: they live in a region of their own
+    where = IOV if len(bufs) <= 1000 else BIGIOV
+    agent.poke(where, arr)
+    return where, len(bufs), out
